@@ -469,7 +469,10 @@ fn normalize_space(
         &model::Value::Node(vec![node])
     };
     let r = String::try_from(arg)?;
-    let w = r.split_whitespace().collect::<Vec<&str>>();
+    let w = r
+        .split([' ', '\t', '\r', '\n'])
+        .filter(|v| !v.is_empty())
+        .collect::<Vec<&str>>();
     Ok(model::Value::Text(w.join(" ")))
 }
 
